@@ -5,6 +5,6 @@ CONSTANTS
   Family = "trunc"
   FaultBehs = {}
   MaxGens = 0
-  TruncLen = 66
+  TruncLen = 59
 INVARIANT Emit
 CHECK_DEADLOCK FALSE
